@@ -201,8 +201,8 @@ def bytesHolesList : List V → Bool
 end
 
 /- an item or entry tuple directly inside an item or entry tuple (also: as an array item or a dictionary key or
-value): `ArrayItemTuple.Hash`/`DictEntryTuple.Hash` thread the seed through unfinished, so differently nested
-tuples hash alike under every seed (KF-seed-threaded-hash) -/
+value): `ArrayItemTuple.Hash`/`DictEntryTuple.Hash` used to thread the seed through unfinished, so differently
+nested tuples hashed alike under every seed (repaired; the predicate only names the stratum of the corpus cases) -/
 def isThreadTup : V → Bool
   | .tup [("@", _), ("@item", _)] => true
   | .tup [("@", _), ("@value", _)] => true
@@ -763,7 +763,6 @@ def mkPair (id stratum : String) (da db : V) (srcA srcB ctx : String) (kfs : Lis
       payload := [srcA, srcB, if hasCtx then ctx else "", flags] }
   if superimposed da || superimposed db then [mk id "KF-superimposed" (if pos then "eqscdrlgfF" else "eqscd")]
   else if bytesHoles da || bytesHoles db then [mk id "KF-bytes-holes" (if pos then "eqscdfF" else "eqscd")]
-  else if threaded da || threaded db then [mk id "KF-seed-threaded-hash" (if pos then "eqscdrlgfF" else "eqscd")]
   else
     -- the classes of C01/C05/C06 findings (string `with` fallback, duplicated string member, Less panics and
     -- inconsistencies) were dropped when their repairs were merged: `kfs` is no longer consulted
@@ -866,7 +865,7 @@ def corpus : List Case :=
        neg "C02-corpus-31" "{1: {(a: 1, b: 2), (c: 3)}}" "{1: {(a: 1), (b: 2, c: 3)}}"
          (Lit.dict [(.num 1, .set [.tup [("a", .num 1), ("b", .num 2)], .tup [("c", .num 3)]])]).den
          (Lit.dict [(.num 1, .set [.tup [("a", .num 1)], .tup [("b", .num 2), ("c", .num 3)]])]).den ]),
-    -- item/entry tuples thread the seed: differently nested tuples hash alike (open finding)
+    -- #7 item/entry tuples threaded the seed: differently nested tuples hashed alike
     (let n (k : Int) : V := .num k
      let x : V := V.mkTup [("@", V.mkTup [("@", n 1), ("@item", n 5)]), ("@value", n 7)]
      let y : V := V.mkTup [("@", n 1), ("@item", V.mkTup [("@", n 5), ("@value", n 7)])]
